@@ -15,6 +15,7 @@ from concurrent.futures import ThreadPoolExecutor
 from harness import common, translate
 
 LEVEL = "proof"
+EXTRA_PROPS_FILES = ["Scfg/Props/C12Doms.lean"]
 
 ORDER_FREE = "sorted(): order erased — theorem sortNames_perm"
 AUDITED = {
@@ -35,8 +36,8 @@ AUDITED = {
     ("transformations.py", "find_tail_blocks", "sub", "for"): "only discards from a set (commutative)",
     ("transformations.py", "_imm_doms", "vs", "list"): "subtracts idoms[v] for every v of a snapshot: a union of subtractions, order-free",
     ("transformations.py", "_imm_doms", "vs", "unpack"): "raises unless a singleton",
-    ("transformations.py", "_find_dominators_internal", "entries", "for"): "initialises dict entries; only dict insertion order varies and consumers only look keys up",
-    ("transformations.py", "_find_dominators_internal", "succs_table[n]", "extend"): "work-list order of a monotone fix-point; the result equals the order-free reference definition on every level met (C13 compares them)",
+    ("transformations.py", "_find_dominators_internal", "entries", "for"): "initialises dict entries; only dict insertion order varies and consumers only look keys up (doms_order_free)",
+    ("transformations.py", "_find_dominators_internal", "succs_table[n]", "extend"): "work-list order of a monotone fix-point; theorem Scfg.C12.doms_order_free: any two orders give the same tables (both equal path dominance, Scfg.C13.domsInternal_correct)",
     ("transformations.py", "_find_dominators_internal", "preds", "comprehension"): "operands of an intersection (commutative, associative)",
     ("basic_block.py", "replace_jump_targets", "diff", "next(iter())"): "asserted to be a singleton",
     ("ast_transforms.py", "prune_unreachable", "to_visit", "pop"): "reachability closure; the reachable set does not depend on visiting order",
